@@ -50,7 +50,8 @@ PROGRAMS = [
     [["1", "P", "p", 0], ["1", "P", "p", 0], ["1", "H", "p", 0], ["1", "P", "p", 0], ["1", "P", "p", 0]],
 ]
 CALLS = ["copy", "unwrap", "group", "rmid", "noise_empty", "noise_real", "compile_stab", "compile_dm_noise", "compile_dm",
-         "infidelity", "metrics", "compare_direct", "compare_iso", "export", "compile_twice"]
+         "infidelity", "metrics", "compare_direct", "compare_iso", "export", "compile_twice", "compile_init"]
+INIT_INDEX = 23  # a 2-qubit stabilizer state used as the caller-owned initial state
 REWRITES = {"unwrap", "group", "rmid"}
 RETURNS_EQUIVALENT = {"copy", "noise_empty"}
 
@@ -97,6 +98,26 @@ def ref_forced(layout, letters, setting):
         else:
             v, _ = gq.ref_apply(v, l, qi)
     return v
+
+
+def ref_forced_from(layout, letters, setting, v0):
+    qi = gq.qindex(layout)
+    v = v0
+    for l in gq.unwrap_letters(letters):
+        if gq.is_measuring(l):
+            p = sv.prob_z(v, qi(l[1], l[2]))
+            o = setting if p[setting] > 1e-9 else 1 - setting
+            v, _ = gq.ref_apply(v, l, qi, o)
+        else:
+            v, _ = gq.ref_apply(v, l, qi)
+    return v
+
+
+def make_inits():
+    from ..ref import spaces
+    from graphiq.state import QuantumState
+    grp = spaces.stabilizer_states(2)[INIT_INDEX]
+    return {"stab": QuantumState(gq.group_to_clifford_tableau(grp), rep_type="s"), "dm": QuantumState(sv.dm(grp.vector()), rep_type="dm")}
 
 
 def mix_sig(layout, letters):
@@ -161,6 +182,25 @@ def do_call(name, circ, layout, ctx):
         if not (np.array_equal(a.table, b.table) and np.array_equal(a.phase, b.phase)):
             ctx["viol"].append(("repeat", "compile", "two-deterministic-compiles-differ"))
         return circ
+    if name == "compile_init":
+        # compile from a caller-owned initial state, with both back ends, twice: the caller's object must keep denoting its state
+        from ..ref import spaces
+        grp = spaces.stabilizer_states(2)[INIT_INDEX]
+        v0 = grp.vector()
+        vref = ref_forced_from(layout, gq.circuit_letters(circ), 1, v0)
+        for backend in ("stab", "dm"):
+            init = ctx["init"][backend]
+            for rep in range(2):
+                st = su.compiler(backend, 1).compile(circ, initial_state=init)
+                bad = c01.state_matches(backend, st.rep_data.data, vref, 2)
+                if bad is not None:
+                    ctx["viol"].append(("initial-state", "compile:" + backend, "compile-from-initial-state-wrong-on-run-%d (%s)" % (rep + 1, bad)))
+                    break
+                bad0 = c01.state_matches(backend, init.rep_data.data, v0, 2)
+                if bad0 is not None:
+                    ctx["viol"].append(("initial-state", "compile:" + backend, "callers-initial-state-changed-by-compile (%s)" % bad0))
+                    break
+        return circ
     if name == "infidelity":
         n = layout[0] + layout[1]
         tgt = QuantumState(sv.dm(sv.zero(n)), rep_type="dm")
@@ -194,11 +234,12 @@ def run_history(acc, pi, hist):
     circ = gq.build_circuit(layout, prog)
     ref_sig = mix_sig(layout, prog)
     vref = ref_forced(layout, prog, 1)
+    inits = make_inits()
     for k, name in enumerate(hist):
         acc.transitions += 1
         site = name
         fp_before = fingerprint(circ)
-        ctx = {"viol": []}
+        ctx = {"viol": [], "init": inits}
         try:
             nxt = do_call(name, circ, layout, ctx)
         except Exception as e:
@@ -208,7 +249,7 @@ def run_history(acc, pi, hist):
             acc.violation("raises", site, "raises-" + type(e).__name__, dict(case, step=k), "call returns", repr(e)[:200])
             return
         for sub, st, sym in ctx["viol"]:
-            acc.violation(sub, st, sym, dict(case, step=k), "identical", "differ")
+            acc.violation(sub, st, sym, dict(case, step=k), "unchanged / identical", "differs")
         # the object passed in
         if name not in REWRITES:
             if fingerprint(circ) != fp_before:
